@@ -10,6 +10,12 @@ Translated on every run:
   red_vars/_dimensions.py::Dimensions                   -> field order, num_nonendogenous, num_lagged_endogenous, num_rhs
   red_vars/prior_obs.py::{Minnesota,Mean}PriorObs.get_num_obs -> gen_minnesota_num_obs, gen_mean_num_obs
   red_vars/_slatable_protocols.py::_DEFAULT_RESIDUAL_VALUE    -> gen_default_residual_is_zero
+  red_vars/_variants.py::Variant._populate_eigenvalues, is_stable -> gen_max_abs_eigenvalue, gen_reported_eigenvalues,
+                                                           gen_is_stable (typed: numpy.abs / numpy.max on complex / real
+                                                           arrays and scalars); the bodies of the caching properties, of
+                                                           _number_from_numpy / _tuple_from_flat_array and of
+                                                           RedVAR.get_stability / get_max_abs_eigenvalue / get_eigenvalues
+                                                           must have the modelled text
 
 Accepted subset: names bound to parameters, `@`, `.T`, `+`, `-`, `/` by a scalar name or the literal 2,
 `_np.linalg.solve(a, b)`, `name[:, where]` (a pre-selected parameter), `c.reshape((-1, 1))` (the broadcast
@@ -297,6 +303,143 @@ def estimator_fragments(props: dict) -> tuple[list[str], list[str]]:
     return nat_lines, mat_lines
 
 
+# ------------------------------------------------------------------ spectral radius and stability verdict
+
+NP_MODS = ("_np", "np", "numpy")
+STMT_EIG = {
+    "_variants.py::Variant.eigenvalues": ("eigenvalues", ["if self._eigenvalues is None:\n    self._populate_eigenvalues()",
+                                                           "return self._eigenvalues"]),
+    "_variants.py::Variant.max_abs_eigenvalue": ("max_abs_eigenvalue",
+                                                 ["if self._max_abs_eigenvalue is None:\n    self._populate_eigenvalues()",
+                                                  "return self._max_abs_eigenvalue"]),
+}
+ACCESSORS = {"get_stability": "[v.is_stable for v in self._variants]",
+             "get_max_abs_eigenvalue": "[v.max_abs_eigenvalue for v in self._variants]",
+             "get_eigenvalues": "[v.eigenvalues for v in self._variants]"}
+CMP_OPS = {ast.Lt: "lt_T O {x} {c}", ast.LtE: "negb (lt_T O {c} {x})", ast.Gt: "lt_T O {c} {x}", ast.GtE: "negb (lt_T O {x} {c})"}
+
+
+def sexpr(node: ast.AST, env: dict, where: str) -> tuple[str, str]:
+    """Typed translation of the numpy expression that reduces the eigenvalue array: returns (term, type) with type in
+    arrC (complex array), arrT (real array), C (complex scalar), T (real scalar).  numpy.abs / numpy.max only."""
+    if isinstance(node, ast.Name):
+        if node.id in env:
+            return env[node.id]
+        raise TranslatorError(f"{where}: unbound name {node.id}")
+    if isinstance(node, ast.Call) and not node.keywords:
+        f = node.func
+        fname, args = None, node.args
+        if isinstance(f, ast.Attribute) and isinstance(f.value, ast.Name) and f.value.id in NP_MODS:
+            fname = f.attr
+        elif isinstance(f, ast.Name) and f.id == "abs":
+            fname = "abs"
+        elif isinstance(f, ast.Attribute) and f.attr == "max" and not args:      # array.max()
+            fname, args = "max", [f.value]
+        if fname is not None and len(args) == 1:
+            t, ty = sexpr(args[0], env, where)
+            if fname in ("abs", "absolute"):
+                if ty == "arrC":
+                    return f"(np_abs_arr O {t})", "arrT"
+                if ty == "C":
+                    return f"(np_abs_sc O {t})", "T"
+            if fname in ("max", "amax"):
+                if ty == "arrT":
+                    return f"(np_max_real O {t})", "T"
+                if ty == "arrC":
+                    return f"(np_max_complex O {t})", "C"
+    raise TranslatorError(f"{where}: unsupported reduction of the eigenvalues {ast.unparse(node)}")
+
+
+def _expect_body(fn: ast.FunctionDef, want: list[str], where: str) -> None:
+    got = [ast.unparse(st) for st in strip_doc(fn)]
+    if got != want:
+        raise TranslatorError(f"{where}: body is {got}, the model expects {want}")
+
+
+def spectral_fragments() -> list[str]:
+    """Variant._populate_eigenvalues (what is stored as eigenvalues / max_abs_eigenvalue), Variant.is_stable and the
+    RedVAR accessors that report them per variant."""
+    tree = _parse("red_vars/_variants.py")
+    cls = find_class(tree, "Variant")
+    where = "Variant._populate_eigenvalues"
+    fn = find_func(cls.body, "_populate_eigenvalues")
+    stmts = strip_doc(fn)
+    txt = [ast.unparse(st) for st in stmts]
+    if len(stmts) != 6:
+        raise TranslatorError(f"{where}: {len(stmts)} statements, the model expects 6: {txt}")
+    fixed = {0: "T = self.companion_T",
+             1: "if T is None:\n    self._eigenvalues = None\n    self._max_abs_eigenvalue = None\n    return",
+             2: "eigenvalues = _np.linalg.eigvals(T)",
+             4: "self._eigenvalues = _tuple_from_flat_array(eigenvalues)",
+             5: "self._max_abs_eigenvalue = _number_from_numpy(max_abs_eigenvalue)"}
+    for i, want in fixed.items():
+        if txt[i] != want:
+            raise TranslatorError(f"{where}: statement {i} is `{txt[i]}`, the model expects `{want}`")
+    st = stmts[3]
+    if not (isinstance(st, ast.Assign) and len(st.targets) == 1 and ast.unparse(st.targets[0]) == "max_abs_eigenvalue"):
+        raise TranslatorError(f"{where}: statement 3 is `{txt[3]}`, expected an assignment to max_abs_eigenvalue")
+    term, ty = sexpr(st.value, {"eigenvalues": ("eigenvalues", "arrC")}, where)
+    if ty != "T":
+        raise TranslatorError(f"{where}: max_abs_eigenvalue = {txt[3]} is not a real scalar (type {ty})")
+    # the helpers that convert numpy values to Python numbers keep the value
+    for name, want in (("_number_from_numpy", ["return float(_np.real(x)) if _np.isreal(x) else complex(x)"]),
+                       ("_tuple_from_flat_array", ["return tuple((_number_from_numpy(i) for i in array.flatten()))"])):
+        _expect_body(find_func(tree.body, name), want, f"_variants.py::{name}")
+    for w, (name, want) in STMT_EIG.items():
+        _expect_body(find_func(cls.body, name), want, w)
+    # is_stable:  <max_abs_eigenvalue> <cmp> <int>  if max_abs_eigenvalue is not None else None
+    where = "Variant.is_stable"
+    ret = _single_return(find_func(cls.body, "is_stable"), where)
+    me = "self.max_abs_eigenvalue"
+    if not (isinstance(ret, ast.IfExp) and ast.unparse(ret.test) == f"{me} is not None" and ast.unparse(ret.orelse) == "None"):
+        raise TranslatorError(f"{where}: not `... if {me} is not None else None`: {ast.unparse(ret)}")
+    b = ret.body
+    if not (isinstance(b, ast.Compare) and len(b.ops) == 1 and type(b.ops[0]) in CMP_OPS and ast.unparse(b.left) == me
+            and isinstance(b.comparators[0], ast.Constant) and type(b.comparators[0].value) is int
+            and b.comparators[0].value >= 0):
+        raise TranslatorError(f"{where}: unsupported stability test {ast.unparse(b)}")
+    test = CMP_OPS[type(b.ops[0])].format(x="x", c=f"(of_nat_T O {b.comparators[0].value})")
+    # accessors of RedVAR: one entry per variant
+    mtree = _parse("red_vars/main.py")
+    for name, want in ACCESSORS.items():
+        fn = None
+        for c in mtree.body:
+            if isinstance(c, ast.ClassDef):
+                for st_ in c.body:
+                    if isinstance(st_, ast.FunctionDef) and st_.name == name:
+                        fn = st_
+        if fn is None:
+            raise TranslatorError(f"red_vars/main.py: no method {name}")
+        body = strip_doc(fn)
+        if not (len(body) == 2 and isinstance(body[0], ast.Assign) and ast.unparse(body[0].value) == want
+                and isinstance(body[1], ast.Return) and isinstance(body[1].value, ast.Call)
+                and ast.unparse(body[1].value.func) == "self.unpack_singleton"
+                and [ast.unparse(a) for a in body[1].value.args] == [ast.unparse(body[0].targets[0])]):
+            raise TranslatorError(f"red_vars/main.py::{name}: body is {[ast.unparse(s) for s in body]}, the model expects "
+                                  f"`x = {want}; return self.unpack_singleton(x, ...)`")
+    return ["(* red_vars/_variants.py::Variant._populate_eigenvalues, Variant.is_stable.  C = complex numbers, T = real numbers;",
+            "   np_abs_* = numpy.abs on an array / a scalar, np_max_real = numpy.max of a real array, np_max_complex = numpy.max",
+            "   of a complex array (lexicographic; a black box here) *)",
+            "Record NpOps (C T : Type) : Type := mkNpOps {",
+            "  np_abs_arr : list C -> list T;  np_abs_sc : C -> T;",
+            "  np_max_real : list T -> T;  np_max_complex : list C -> C;",
+            "  lt_T : T -> T -> bool;  of_nat_T : nat -> T }.",
+            "Arguments np_abs_arr {C T}. Arguments np_abs_sc {C T}. Arguments np_max_real {C T}.",
+            "Arguments np_max_complex {C T}. Arguments lt_T {C T}. Arguments of_nat_T {C T}.",
+            "Section SpectralGen.",
+            "Variables C T : Type.",
+            "Variable O : NpOps C T.",
+            f"(* {txt[3]} *)",
+            f"Definition gen_max_abs_eigenvalue (eigenvalues : list C) : T :=\n  {term}.",
+            f"(* {txt[4]} *)",
+            "Definition gen_reported_eigenvalues (eigenvalues : list C) : list C := eigenvalues.",
+            f"(* return {ast.unparse(ret)} *)",
+            "Definition gen_is_stable (max_abs_eigenvalue : option T) : option bool :=\n"
+            f"  match max_abs_eigenvalue with Some x => Some ({test}) | None => None end.",
+            "End SpectralGen.",
+            "Arguments gen_max_abs_eigenvalue {C T}. Arguments gen_reported_eigenvalues {C}. Arguments gen_is_stable {C T}.", ""]
+
+
 def slatable_fragment() -> list[str]:
     tree = _parse("red_vars/_slatable_protocols.py")
     val = None
@@ -320,6 +463,7 @@ def generate() -> str:
     out += dim_lines + [""] + prior_fragments(props) + [""] + nat_lines + [""] + slatable_fragment() + [""]
     out += ["Section Matrices.", "Variable M : MatOps.", ""] + ols_fragment() + [""] + symmetrize_fragment() + [""]
     out += mat_lines + ["End Matrices.", ""]
+    out += spectral_fragments()
     out += ["Arguments gen_ols {M n r N}.", "Arguments gen_symmetrize {M n}.",
             "Arguments gen_residuals {M n np m N}.", "Arguments gen_cov_residuals {M n Nw}.", ""]
     return "\n".join(out)
